@@ -32,10 +32,9 @@ structure ModWF (m : LinMod) : Prop where
   bpm : 20 ≤ m.bpm
   len : m.len ≤ 256
   rst : m.rst < m.len
-  /-- marker formats (S3M, IT): pattern numbers 0xfe / 0xff are never real patterns … -/
+  /-- marker formats (S3M, IT, and MOD / XM under a player mode with `QUIRK_MARKER`): pattern numbers
+  0xfe / 0xff are never real patterns -/
   mkNpat : m.marker = true → m.npat ≤ 254
-  /-- … and an end marker in the order list excludes a restart position -/
-  mkRst : ∀ x, isEndMark m x → m.rst = 0
 
 theorem order_cases (m : LinMod) (hw : ModWF m) (o : Nat) (ho : o < m.len) :
     isPlay m o ∨ isSkip m o ∨ isEndMark m o := by
@@ -115,7 +114,8 @@ theorem scanOrders_skip (m : LinMod) (ep chain fuel nord : Nat) (st : ScanSt) (h
 theorem scanOrders_endMark (m : LinMod) (ep chain fuel nord : Nat) (st : ScanSt) (hs : isEndMark m nord)
     (hnp : m.npat ≤ 254) (hosv : st.osv ≤ 512) :
     scanOrders m ep chain (fuel + 1) nord st =
-      scanOrders m ep chain fuel (m.len + 1) { st with osv := st.osv + 1, ctl := claimCtl ep chain nord st.ctl } := by
+      scanOrders m ep chain fuel (m.len + 1)
+        { st with osv := st.osv + 1, ctl := claimCtl ep chain nord st.ctl, endMark := some nord } := by
   obtain ⟨h1, h2, h3⟩ := hs
   have hnw : ¬ nord ≥ m.len := by omega
   have hend : (m.marker && m.patOf nord == 0xff) = true := by simp [h2, h3]
@@ -139,13 +139,13 @@ theorem scanOrders_play (m : LinMod) (ep chain fuel nord : Nat) (st : ScanSt) (h
 /-- the wrapped iteration (`++ord >= len`): continue at the restart order `R` -/
 theorem scanOrders_wrap_play (m : LinMod) (ep chain fuel nord : Nat) (st : ScanSt) (hw : nord ≥ m.len)
     (hnp : m.marker = true → m.npat ≤ 254)
-    (hs : isPlay m (restartOrd m ep chain st.ctl)) (hosv : st.osv ≤ 512) :
+    (hs : isPlay m (restartOrd m ep chain st.ctl st.endMark)) (hosv : st.osv ≤ 512) :
     scanOrders m ep chain (fuel + 1) nord st =
-      procValid m ep chain fuel (restartOrd m ep chain st.ctl) { st with osv := st.osv + 1 } := by
+      procValid m ep chain fuel (restartOrd m ep chain st.ctl st.endMark) { st with osv := st.osv + 1, endMark := none } := by
   obtain ⟨h1, h2⟩ := hs
   have hosv' : ¬ st.osv > 512 := by omega
-  have hp : ¬ m.patOf (restartOrd m ep chain st.ctl) ≥ m.npat := by omega
-  have hend : (m.marker && m.patOf (restartOrd m ep chain st.ctl) == 0xff) = false := by
+  have hp : ¬ m.patOf (restartOrd m ep chain st.ctl st.endMark) ≥ m.npat := by omega
+  have hend : (m.marker && m.patOf (restartOrd m ep chain st.ctl st.endMark) == 0xff) = false := by
     cases hm : m.marker
     · simp
     · have := hnp hm
@@ -156,14 +156,15 @@ theorem scanOrders_wrap_play (m : LinMod) (ep chain fuel nord : Nat) (st : ScanS
   rfl
 
 theorem scanOrders_wrap_skip (m : LinMod) (ep chain fuel nord : Nat) (st : ScanSt) (hw : nord ≥ m.len)
-    (hs : isSkip m (restartOrd m ep chain st.ctl)) (hosv : st.osv ≤ 512) :
+    (hs : isSkip m (restartOrd m ep chain st.ctl st.endMark)) (hosv : st.osv ≤ 512) :
     scanOrders m ep chain (fuel + 1) nord st =
-      scanOrders m ep chain fuel (restartOrd m ep chain st.ctl + 1)
-        { st with osv := st.osv + 1, ctl := claimCtl ep chain (restartOrd m ep chain st.ctl) st.ctl } := by
+      scanOrders m ep chain fuel (restartOrd m ep chain st.ctl st.endMark + 1)
+        { st with osv := st.osv + 1, ctl := claimCtl ep chain (restartOrd m ep chain st.ctl st.endMark) st.ctl,
+                  endMark := none } := by
   obtain ⟨h1, h2, h3⟩ := hs
   have hosv' : ¬ st.osv > 512 := by omega
-  have hp : m.patOf (restartOrd m ep chain st.ctl) ≥ m.npat := h2
-  have hend : (m.marker && m.patOf (restartOrd m ep chain st.ctl) == 0xff) = false := by
+  have hp : m.patOf (restartOrd m ep chain st.ctl st.endMark) ≥ m.npat := h2
+  have hend : (m.marker && m.patOf (restartOrd m ep chain st.ctl st.endMark) == 0xff) = false := by
     cases hm : m.marker
     · simp
     · simp only [Bool.true_and, beq_eq_false_iff_ne, ne_eq]
@@ -245,29 +246,49 @@ theorem scan_walk (m : LinMod) (ep chain : Nat) : ∀ (k fuel a : Nat) (st : Sca
       have e2 : st.osv + 1 + k = st.osv + (k + 1) := by omega
       simp only [e1, e2]
 
-theorem restartOrd_eq (m : LinMod) (ep chain : Nat) (c : List Nat) (hrst : m.rst < m.len) :
-    restartOrd m ep chain c = if isPlay m m.rst ∧ c.getD m.rst 0xff = chain then m.rst else ep := by
+theorem belowEp_eq (ep : Nat) (em : Option Nat) : belowEp ep em = true ↔ ∃ x, em = some x ∧ x < ep := by
+  cases em with
+  | none => simp [belowEp]
+  | some x => simp [belowEp]
+
+theorem restartOrd_eq (m : LinMod) (ep chain : Nat) (c : List Nat) (em : Option Nat) (hrst : m.rst < m.len) :
+    restartOrd m ep chain c em =
+      if isPlay m m.rst ∧ belowEp ep em = false ∧ c.getD m.rst 0xff = chain then m.rst else ep := by
   unfold restartOrd isPlay
   by_cases h1 : m.patOf m.rst < m.npat
-  · have : ¬ (m.rst > m.len ∨ m.patOf m.rst ≥ m.npat) := by omega
-    simp only [this, if_false, hrst, h1, true_and]
-  · have : (m.rst > m.len ∨ m.patOf m.rst ≥ m.npat) := by omega
-    simp only [this, if_true, h1, and_false, false_and, if_false]
+  · by_cases h2 : belowEp ep em = true
+    · have : (m.rst > m.len ∨ m.patOf m.rst ≥ m.npat ∨ belowEp ep em = true) := Or.inr (Or.inr h2)
+      rw [if_pos this, if_neg (by intro h; rw [h2] at h; exact absurd h.2.1 (by decide))]
+    · have h2' : belowEp ep em = false := by cases hb : belowEp ep em <;> simp_all
+      have : ¬ (m.rst > m.len ∨ m.patOf m.rst ≥ m.npat ∨ belowEp ep em = true) := by
+        intro h; rcases h with h | h | h
+        · omega
+        · omega
+        · exact h2 h
+      rw [if_neg this]
+      by_cases h3 : c.getD m.rst 0xff = chain
+      · rw [if_pos h3, if_pos ⟨⟨hrst, h1⟩, h2', h3⟩]
+      · rw [if_neg h3, if_neg (by intro h; exact h3 h.2.2)]
+  · have : (m.rst > m.len ∨ m.patOf m.rst ≥ m.npat ∨ belowEp ep em = true) := Or.inr (Or.inl (by omega))
+    rw [if_pos this, if_neg (by intro h; exact h1 h.1.2)]
 
 /-- where the order-loop heads of both interpreters end up from `nord`: `o1` is the first playable
-order from the entry point, `U` the decision "restart at `mod->rst`" -/
-def Target (m : LinMod) (o1 : Nat) (U : Prop) (nord o : Nat) : Prop :=
+order from the entry point `ep`, `U` the decision "`mod->rst` belongs to this sequence"; the walk stops at
+`x` (a playable order, an end marker, or the end of the order list); an end marker below the entry point
+restarts at the entry point -/
+def Target (m : LinMod) (ep o1 : Nat) (U : Prop) (nord o : Nat) : Prop :=
   ∃ x, nord ≤ x ∧ SkipRange m nord x ∧
-    ((isPlay m x ∧ o = x) ∨ ((isEndMark m x ∨ m.len ≤ x) ∧ ((U ∧ o = m.rst) ∨ (¬ U ∧ o = o1))))
+    ((isPlay m x ∧ o = x) ∨
+     ((isEndMark m x ∨ m.len ≤ x) ∧ ((U ∧ ¬ x < ep ∧ o = m.rst) ∨ ((¬ U ∨ x < ep) ∧ o = o1))))
 
-theorem Target.direct {m : LinMod} {o1 : Nat} {U : Prop} {nord : Nat} (x : Nat) (h1 : nord ≤ x)
-    (h2 : SkipRange m nord x) (h3 : isPlay m x) : Target m o1 U nord x :=
+theorem Target.direct {m : LinMod} {ep o1 : Nat} {U : Prop} {nord : Nat} (x : Nat) (h1 : nord ≤ x)
+    (h2 : SkipRange m nord x) (h3 : isPlay m x) : Target m ep o1 U nord x :=
   ⟨x, h1, h2, Or.inl ⟨h3, rfl⟩⟩
-theorem Target.wrapRst {m : LinMod} {o1 : Nat} {U : Prop} {nord : Nat} (x : Nat) (h1 : nord ≤ x)
-    (h2 : SkipRange m nord x) (h3 : isEndMark m x ∨ m.len ≤ x) (h4 : U) : Target m o1 U nord m.rst :=
-  ⟨x, h1, h2, Or.inr ⟨h3, Or.inl ⟨h4, rfl⟩⟩⟩
-theorem Target.wrapEp {m : LinMod} {o1 : Nat} {U : Prop} {nord : Nat} (x : Nat) (h1 : nord ≤ x)
-    (h2 : SkipRange m nord x) (h3 : isEndMark m x ∨ m.len ≤ x) (h4 : ¬ U) : Target m o1 U nord o1 :=
+theorem Target.wrapRst {m : LinMod} {ep o1 : Nat} {U : Prop} {nord : Nat} (x : Nat) (h1 : nord ≤ x)
+    (h2 : SkipRange m nord x) (h3 : isEndMark m x ∨ m.len ≤ x) (h4 : U) (h5 : ¬ x < ep) : Target m ep o1 U nord m.rst :=
+  ⟨x, h1, h2, Or.inr ⟨h3, Or.inl ⟨h4, h5, rfl⟩⟩⟩
+theorem Target.wrapEp {m : LinMod} {ep o1 : Nat} {U : Prop} {nord : Nat} (x : Nat) (h1 : nord ≤ x)
+    (h2 : SkipRange m nord x) (h3 : isEndMark m x ∨ m.len ≤ x) (h4 : ¬ U ∨ x < ep) : Target m ep o1 U nord o1 :=
   ⟨x, h1, h2, Or.inr ⟨h3, Or.inr ⟨h4, rfl⟩⟩⟩
 
 theorem scanOrders_fuel_pos (m : LinMod) (ep chain fuel nord : Nat) (st : ScanSt)
@@ -276,15 +297,19 @@ theorem scanOrders_fuel_pos (m : LinMod) (ep chain fuel nord : Nat) (st : ScanSt
   | zero => exact absurd rfl h
   | succ f => exact ⟨f, rfl⟩
 
-/-- **The head of the scan's order loop**, from the end of a pattern (`orders_since_last_valid = 0`)
-to the next order holding a pattern: never the sanity exit, never the end-marker exit. -/
+theorem endMark_none_eq (st : ScanSt) (h : st.endMark = none) (k : Nat) (c : List Nat) :
+    ({ st with osv := k, ctl := c, endMark := none } : ScanSt) = { st with osv := k, ctl := c } := by
+  cases st; simp only at h; subst h; rfl
+
+/-- **The head of the scan's order loop**, from the end of a pattern (`orders_since_last_valid = 0`, no end
+marker pending) to the next order holding a pattern: never the sanity exit, never the end-marker exit. -/
 theorem scan_head (m : LinMod) (ep chain o1 : Nat) (hw : ModWF m) (hep : ep < m.len)
     (hstart : SkipRange m ep o1) (ho1 : isPlay m o1) (hepo1 : ep ≤ o1)
-    (fuel nord : Nat) (st : ScanSt) (hosv : st.osv = 0)
+    (fuel nord : Nat) (st : ScanSt) (hosv : st.osv = 0) (hem : st.endMark = none)
     (hne : scanOrders m ep chain fuel nord st ≠ .noFuel) :
     ∃ o fuel' k c', isPlay m o ∧ fuel' < fuel ∧ CtlKeep m ep chain st.ctl c' ∧
       scanOrders m ep chain fuel nord st = procValid m ep chain fuel' o { st with osv := k, ctl := c' } ∧
-      Target m o1 (isPlay m m.rst ∧ st.ctl.getD m.rst 0xff = chain) nord o := by
+      Target m ep o1 (isPlay m m.rst ∧ st.ctl.getD m.rst 0xff = chain) nord o := by
   have hlen := hw.len
   -- the walk from `nord`
   obtain ⟨x, hx1, hx2, hx3, hx4⟩ : ∃ x, nord ≤ x ∧ (x ≤ m.len ∨ x = nord) ∧ SkipRange m nord x ∧
@@ -310,10 +335,11 @@ theorem scan_head (m : LinMod) (ep chain o1 : Nat) (hw : ModWF m) (hep : ep < m.
     refine ⟨x, f2, st.osv + (x - nord) + 1, c1, hplay, by omega, hk1, ?_, Target.direct x hx1 hx3 hplay⟩
     rw [he1, scanOrders_play m ep chain f2 x _ hplay (by show st.osv + (x - nord) ≤ 512; omega)]
   · -- end marker or end of the order list: get to the wrapped iteration
-    obtain ⟨f3, nord3, k3, c3, hf3, hn3, hk3, hc3, he3⟩ : ∃ f3 nord3 k3 c3, f3 < fuel ∧ m.len ≤ nord3 ∧ k3 ≤ m.len ∧
-        CtlKeep m ep chain st.ctl c3 ∧
-        scanOrders m ep chain fuel nord st = scanOrders m ep chain (f3 + 1) nord3 { st with osv := k3, ctl := c3 } ∧
-        scanOrders m ep chain (f3 + 1) nord3 { st with osv := k3, ctl := c3 } ≠ .noFuel := by
+    obtain ⟨f3, nord3, k3, c3, em3, hf3, hn3, hk3, hc3, hem3, he3⟩ : ∃ f3 nord3 k3 c3 em3, f3 < fuel ∧ m.len ≤ nord3 ∧ k3 ≤ m.len ∧
+        CtlKeep m ep chain st.ctl c3 ∧ (belowEp ep em3 = true ↔ x < ep) ∧
+        scanOrders m ep chain fuel nord st =
+          scanOrders m ep chain (f3 + 1) nord3 { st with osv := k3, ctl := c3, endMark := em3 } ∧
+        scanOrders m ep chain (f3 + 1) nord3 { st with osv := k3, ctl := c3, endMark := em3 } ≠ .noFuel := by
       rcases hwrap with hmark | hge
       · have hxl : x < m.len := hmark.1
         have h2 := scanOrders_endMark m ep chain f2 x { st with osv := st.osv + (x - nord), ctl := c1 } hmark
@@ -321,43 +347,70 @@ theorem scan_head (m : LinMod) (ep chain o1 : Nat) (hw : ModWF m) (hep : ep < m.
         rw [h2] at hne
         obtain ⟨f3, hf3⟩ := scanOrders_fuel_pos _ _ _ _ _ _ hne
         subst hf3
-        refine ⟨f3, m.len + 1, st.osv + (x - nord) + 1, claimCtl ep chain x c1, by omega, by omega, by omega,
-          hk1.trans (claimCtl_keep m ep chain x c1 (endMark_not_play m hw x hmark)), ?_, hne⟩
-        rw [he1, h2]
-      · exact ⟨f2, x, st.osv + (x - nord), c1, by omega, hge, by omega, hk1, he1, hne⟩
+        refine ⟨f3, m.len + 1, st.osv + (x - nord) + 1, claimCtl ep chain x c1, some x, by omega, by omega, by omega,
+          hk1.trans (claimCtl_keep m ep chain x c1 (endMark_not_play m hw x hmark)), ?_, ?_, hne⟩
+        · simp [belowEp]
+        · rw [he1, h2]
+      · refine ⟨f2, x, st.osv + (x - nord), c1, none, by omega, hge, by omega, hk1, ?_, ?_, ?_⟩
+        · simp only [belowEp]; constructor
+          · intro h; cases h
+          · intro h; omega
+        · rw [he1]
+          have : ({ st with osv := st.osv + (x - nord), ctl := c1 } : ScanSt) =
+              { st with osv := st.osv + (x - nord), ctl := c1, endMark := none } :=
+            (endMark_none_eq st hem _ _).symm
+          rw [this]
+        · have : ({ st with osv := st.osv + (x - nord), ctl := c1 } : ScanSt) =
+              { st with osv := st.osv + (x - nord), ctl := c1, endMark := none } :=
+            (endMark_none_eq st hem _ _).symm
+          rw [← this]; exact hne
     clear hne he1
     obtain ⟨he3, hne3⟩ := he3
-    have hR := restartOrd_eq m ep chain c3 hw.rst
-    by_cases hU : isPlay m m.rst ∧ st.ctl.getD m.rst 0xff = chain
-    · have hU' : isPlay m m.rst ∧ c3.getD m.rst 0xff = chain := ⟨hU.1, by rw [hc3.play _ hU.1]; exact hU.2⟩
+    have hR := restartOrd_eq m ep chain c3 em3 hw.rst
+    by_cases hU : (isPlay m m.rst ∧ st.ctl.getD m.rst 0xff = chain) ∧ ¬ x < ep
+    · have hb : belowEp ep em3 = false := by
+        cases hbb : belowEp ep em3
+        · rfl
+        · exact absurd (hem3.mp hbb) hU.2
+      have hU' : isPlay m m.rst ∧ belowEp ep em3 = false ∧ c3.getD m.rst 0xff = chain :=
+        ⟨hU.1.1, hb, by rw [hc3.play _ hU.1.1]; exact hU.1.2⟩
       rw [if_pos hU'] at hR
-      have h4 := scanOrders_wrap_play m ep chain f3 nord3 { st with osv := k3, ctl := c3 } hn3 hw.mkNpat
-        (by show isPlay m (restartOrd m ep chain c3); rw [hR]; exact hU.1) (by show k3 ≤ 512; omega)
-      refine ⟨m.rst, f3, k3 + 1, c3, hU.1, hf3, hc3, ?_, Target.wrapRst x hx1 hx3 hwrap hU⟩
+      have h4 := scanOrders_wrap_play m ep chain f3 nord3 { st with osv := k3, ctl := c3, endMark := em3 } hn3 hw.mkNpat
+        (by show isPlay m (restartOrd m ep chain c3 em3); rw [hR]; exact hU.1.1) (by show k3 ≤ 512; omega)
+      refine ⟨m.rst, f3, k3 + 1, c3, hU.1.1, hf3, hc3, ?_, Target.wrapRst x hx1 hx3 hwrap hU.1 hU.2⟩
       rw [he3, h4]
-      show procValid m ep chain f3 (restartOrd m ep chain c3) _ = _
-      rw [hR]
-    · have hU' : ¬ (isPlay m m.rst ∧ c3.getD m.rst 0xff = chain) := by
-        intro h; exact hU ⟨h.1, by rw [← hc3.play _ h.1]; exact h.2⟩
+      show procValid m ep chain f3 (restartOrd m ep chain c3 em3) { st with osv := k3 + 1, ctl := c3, endMark := none } = _
+      rw [hR, endMark_none_eq st hem]
+    · have hU' : ¬ (isPlay m m.rst ∧ belowEp ep em3 = false ∧ c3.getD m.rst 0xff = chain) := by
+        intro h
+        apply hU
+        refine ⟨⟨h.1, by rw [← hc3.play _ h.1]; exact h.2.2⟩, ?_⟩
+        intro hlt
+        have := hem3.mpr hlt
+        rw [h.2.1] at this; cases this
+      have hT : ¬ (isPlay m m.rst ∧ st.ctl.getD m.rst 0xff = chain) ∨ x < ep := by
+        by_cases hlt : x < ep
+        · exact Or.inr hlt
+        · exact Or.inl (fun h => hU ⟨h, hlt⟩)
       rw [if_neg hU'] at hR
       by_cases hepl : ep = o1
       · -- the entry point itself holds a pattern
         have hpl : isPlay m ep := by rw [hepl]; exact ho1
-        have h4 := scanOrders_wrap_play m ep chain f3 nord3 { st with osv := k3, ctl := c3 } hn3 hw.mkNpat
-          (by show isPlay m (restartOrd m ep chain c3); rw [hR]; exact hpl) (by show k3 ≤ 512; omega)
-        refine ⟨o1, f3, k3 + 1, c3, ho1, hf3, hc3, ?_, Target.wrapEp x hx1 hx3 hwrap hU⟩
+        have h4 := scanOrders_wrap_play m ep chain f3 nord3 { st with osv := k3, ctl := c3, endMark := em3 } hn3 hw.mkNpat
+          (by show isPlay m (restartOrd m ep chain c3 em3); rw [hR]; exact hpl) (by show k3 ≤ 512; omega)
+        refine ⟨o1, f3, k3 + 1, c3, ho1, hf3, hc3, ?_, Target.wrapEp x hx1 hx3 hwrap hT⟩
         rw [he3, h4]
-        show procValid m ep chain f3 (restartOrd m ep chain c3) _ = _
-        rw [hR, hepl]
+        show procValid m ep chain f3 (restartOrd m ep chain c3 em3) { st with osv := k3 + 1, ctl := c3, endMark := none } = _
+        rw [hR, hepl, endMark_none_eq st hem]
       · have hsk : isSkip m ep := hstart ep (Nat.le_refl _) (by omega)
-        have h4 := scanOrders_wrap_skip m ep chain f3 nord3 { st with osv := k3, ctl := c3 } hn3
-          (by show isSkip m (restartOrd m ep chain c3); rw [hR]; exact hsk) (by show k3 ≤ 512; omega)
-        have h4' : scanOrders m ep chain (f3 + 1) nord3 { st with osv := k3, ctl := c3 } =
+        have h4 := scanOrders_wrap_skip m ep chain f3 nord3 { st with osv := k3, ctl := c3, endMark := em3 } hn3
+          (by show isSkip m (restartOrd m ep chain c3 em3); rw [hR]; exact hsk) (by show k3 ≤ 512; omega)
+        have h4' : scanOrders m ep chain (f3 + 1) nord3 { st with osv := k3, ctl := c3, endMark := em3 } =
             scanOrders m ep chain f3 (ep + 1) { st with osv := k3 + 1, ctl := claimCtl ep chain ep c3 } := by
           rw [h4]
-          show scanOrders m ep chain f3 (restartOrd m ep chain c3 + 1)
-            { st with osv := k3 + 1, ctl := claimCtl ep chain (restartOrd m ep chain c3) c3 } = _
-          rw [hR]
+          show scanOrders m ep chain f3 (restartOrd m ep chain c3 em3 + 1)
+            { st with osv := k3 + 1, ctl := claimCtl ep chain (restartOrd m ep chain c3 em3) c3, endMark := none } = _
+          rw [hR, endMark_none_eq st hem]
         rw [h4'] at hne3
         have hxe2 : ep + 1 + (o1 - (ep + 1)) = o1 := by omega
         have ho1l : o1 < m.len := ho1.1
@@ -371,7 +424,7 @@ theorem scan_head (m : LinMod) (ep chain o1 : Nat) (hw : ModWF m) (hep : ep < m.
         subst hf6
         refine ⟨o1, f6, k3 + 1 + (o1 - (ep + 1)) + 1, c5, ho1, by omega,
           (hc3.trans (claimCtl_keep m ep chain ep c3 (skip_not_play m ep hsk))).trans hk5, ?_,
-          Target.wrapEp x hx1 hx3 hwrap hU⟩
+          Target.wrapEp x hx1 hx3 hwrap hT⟩
         rw [he3, h4', he5]
         exact scanOrders_play m ep chain f6 o1 _ ho1 (by show k3 + 1 + (o1 - (ep + 1)) ≤ 512; omega)
 
@@ -456,8 +509,7 @@ theorem nextOrder_walk (m : LinMod) (si : SeqInfo) (ctl : List Nat) : ∀ (k f a
 theorem play_target (m : LinMod) (si : SeqInfo) (ctl : List Nat) (o1 : Nat) (U : Prop) (hw : ModWF m)
     (hep : si.ep < m.len) (hstart : SkipRange m si.ep o1) (ho1 : isPlay m o1) (hepo1 : si.ep ≤ o1)
     (hU : U ↔ (isPlay m m.rst ∧ ctl.getD m.rst 0xff = si.seq))
-    (hUlow : ∀ x, isEndMark m x → x < si.ep → ¬ U)
-    (nord o : Nat) (ht : Target m o1 U nord o) :
+    (nord o : Nat) (ht : Target m si.ep o1 U nord o) :
     nextOrder m si ctl (orderFuel m) nord = some o := by
   have hlen := hw.len
   have ho1l : o1 < m.len := ho1.1
@@ -490,21 +542,19 @@ theorem play_target (m : LinMod) (si : SeqInfo) (ctl : List Nat) (o1 : Nat) (U :
   obtain ⟨g, hgl, hg⟩ := hfuel x h1 (hxb x h1 h2)
   have hxe : nord + (x - nord) = x := by omega
   rw [hg, nextOrder_walk m si ctl (x - nord) (g + 1) nord (by rw [hxe]; exact h2), hxe]
-  rcases hc with ⟨h3, rfl⟩ | ⟨h3, ⟨h4, rfl⟩ | ⟨h4, rfl⟩⟩
+  rcases hc with ⟨h3, rfl⟩ | ⟨h3, ⟨h4, hnlow, rfl⟩ | ⟨h4, rfl⟩⟩
   · exact nextOrder_play m si ctl g o h3 hw.mkNpat
-  · have hnlow : ¬ x < si.ep := by
-      intro hlt
-      rcases h3 with h | h
-      · exact hUlow x h hlt h4
-      · omega
-    have hR : playRestart m si ctl x = m.rst := by
+  · have hR : playRestart m si ctl x = m.rst := by
       rw [playRestart_eq m si ctl x hw.rst, if_pos ⟨(hU.mp h4).1, hnlow, (hU.mp h4).2⟩]
     rw [nextOrder_wrap m si ctl g x h3, hR]
     have hp : ¬ m.patOf m.rst ≥ m.npat := by have := (hU.mp h4).1.2; omega
     rw [if_neg hp]
   · have hR : playRestart m si ctl x = si.ep := by
       rw [playRestart_eq m si ctl x hw.rst, if_neg]
-      intro h; exact h4 (hU.mpr ⟨h.1, h.2.2⟩)
+      intro h
+      rcases h4 with h4 | h4
+      · exact h4 (hU.mpr ⟨h.1, h.2.2⟩)
+      · exact h.2.1 h4
     exact hfromEp g hgl x h3 hR
 
 end Xmp.LinFlow
